@@ -6,7 +6,8 @@ _FR = json.load(open(os.path.join(HERE, 'seeded', 'FIRST_RUN.json')))
 FIRST = dict(_FR['missed'], **_FR.get('batch2_missed', {}))
 FIRST.update(_FR.get('batch3_missed', {}))
 FIRST.update(_FR.get('batch4_missed', {}))
-_MISSED_ALL = set(_FR.get('batch2_first_run', {}).get('missed', [])) | set(_FR.get('batch3_first_run', {}).get('missed', [])) | set(_FR.get('batch4_first_run', {}).get('missed', [])) | set(_FR['missed'])
+FIRST.update(_FR.get('batch5_missed', {}))
+_MISSED_ALL = set(_FR.get('batch2_first_run', {}).get('missed', [])) | set(_FR.get('batch3_first_run', {}).get('missed', [])) | set(_FR.get('batch4_first_run', {}).get('missed', [])) | set(_FR.get('batch5_first_run', {}).get('missed', [])) | set(_FR['missed'])
 rows = []
 for d in sorted(glob.glob(os.path.join(HERE, 'seeded', 'C*', '*'))):
     if not os.path.isdir(d):
@@ -38,8 +39,8 @@ for d in sorted(glob.glob(os.path.join(HERE, 'seeded', 'C*', '*'))):
                  ('suite ok' if m and m.group(1) == '0' else ('suite: ' + suite[:40] if suite and suite != 'skipped' else 'suite run by the author only'))))
 def _batch(cid):
     k = cid.split('/')[1]
-    return 4 if k == '7' else 3 if k == '6' else 2 if k in ('4', '5') else 1
-for bno in (1, 2, 3, 4):
+    return 5 if k == '8' else 4 if k == '7' else 3 if k == '6' else 2 if k in ('4', '5') else 1
+for bno in (1, 2, 3, 4, 5):
     sub = [r for r in rows if _batch(r[0]) == bno]
     print(f'Batch {bno}: {len(sub)} changes, {sum(1 for r in sub if r[4] == "caught")} reported by the first run, {sum(1 for r in sub if r[4] != "caught")} missed at first; '
           f'{sum(1 for r in sub if r[2] == "reported")} reported today.\n')
